@@ -776,6 +776,7 @@ def cc2(F, R):
             seq.append(("init", "unknown:" + show(v, b)[:60], None))
         here = b.facts_at(site)
         apps = []
+        arms = {}
         for a in raw:
             if not (a.kind == "call" and a.name in ("extend_from_slice", "extend", "append", "push", "extend_from_within", "insert", "resize",
                                                     "truncate", "clear", "pop", "remove", "drain", "retain") and
@@ -798,8 +799,33 @@ def cc2(F, R):
                                                              strip_load(strip_load(f[1])[1])[0] == "next")]
             if a.body is b and hdr is not None and b.dominates((hdr, 0), site) and not own:
                 apps.append(((hdr, 0), a))
+            elif a.body is b and b.reaches(a.site, site) and len(own) == 1 and own[0][0] == "in" and strip_load(own[0][1])[0] == "discr" and \
+                    len(own[0][2]) == 1 and own[0][2] <= frozenset(["Vector", "Bytes"]) and a.name in ("extend_from_slice", "extend"):
+                arms.setdefault(strip_sites(strip_load(own[0][1])), []).append((next(iter(own[0][2])), a))
             elif a.body is not b or b.reaches(a.site, site):
                 seq.append(("conditional-" + a.name, "unknown", a))
+        # one append per representation of the same operand (`match h { Vector(v) => extend(v), Bytes(a, l) => extend(&a[..*l]) }`):
+        # exactly one of them runs; together they are one append, placed where the arms split
+        d = b.dom()
+        for subj, lst in arms.items():
+            vs = sorted(v for v, _ in lst)
+            sds = {side(a.args[1]) for _, a in lst}
+            common = None
+            for _, a in lst:
+                ds = set(d.get(a.site[0], ()))
+                common = ds if common is None else (common & ds)
+            common = [x for x in (common or ()) if all(x != a.site[0] for _, a in lst)]
+            split = None
+            for x in common:
+                if all(x in d.get(y, ()) or x == y for y in common if True) and all(y in d.get(x, ()) for y in common):
+                    split = x
+            if split is None and common:
+                split = max(common, key=lambda x: len(d.get(x, ())))
+            if vs == ["Bytes", "Vector"] and len(sds) == 1 and split is not None and b.dominates((split, 0), site):
+                apps.append(((split, len(b.blocks[split]["stmts"])), lst[0][1]))
+            else:
+                for _, a in lst:
+                    seq.append(("conditional-" + a.name, "unknown", a))
         def before(o, x):
             if o[0][0] == x[0][0] and (o[1].d.get("unrolled") or x[1].d.get("unrolled")):
                 return o[0][1] < x[0][1]
